@@ -93,6 +93,16 @@ pub trait L {
     fn pprov(self: core::pin::Pin<&mut Self>) -> u32 {
         6
     }
+    /// answers with the number of lent values dropped so far
+    fn probe(&self) -> u32;
+    /// a provided method that takes the instance by value: the instance ends inside it, after its
+    /// body has run
+    fn fin(self) -> u32
+    where
+        Self: Sized,
+    {
+        self.probe()
+    }
 }
 
 #[derive(Clone, Copy, Debug, PartialEq, Eq, PartialOrd, Ord, Hash)]
@@ -177,6 +187,7 @@ fn build(ledger: &Arc<Ledger>) -> (Unimock, u32) {
     let lent_id = lent_value.id;
     let l1 = ledger.clone();
     let l2 = ledger.clone();
+    let l3 = ledger.clone();
     let u = Unimock::new((
         LMock::lent.each_call(matching!()).returns(lent_value),
         LMock::ans
@@ -185,6 +196,9 @@ fn build(ledger: &Arc<Ledger>) -> (Unimock, u32) {
         LMock::mans
             .each_call(matching!())
             .answers_arc(mut_answer(move |u| u.make_mut(P1::new(&l2)))),
+        LMock::probe
+            .each_call(matching!())
+            .answers_arc(Arc::new(move |_: &Unimock| l3.dropped().len() as u32)),
     ));
     (u, lent_id)
 }
@@ -331,7 +345,18 @@ fn run_sequence_inner(steps: &[Step]) -> Result<String, String> {
     // tear down: clone first; its values (and its helper's) go, the original's stay
     let total = ledger.next_id.load(Ordering::SeqCst);
     let clone = insts.pop().unwrap();
-    drop(clone);
+    // (the way an instance ends is chosen by the sequence: all ways are met by many sequences)
+    let way = steps.iter().enumerate().map(|(k, s)| (k + 1) * (s.op as usize * 2 + s.inst as usize + 1)).sum::<usize>();
+    if way % 3 == 2 {
+        // the clone ends inside a by-value provided method: while its body runs nothing the clone
+        // lent has been dropped yet
+        let seen = <Unimock as L>::fin(clone.take());
+        if seen as usize != expected_dropped.len() {
+            return Err(format!("a by-value provided method on the clone: its body saw {seen} dropped values, only the {} released by exclusive operations may be gone while the instance is alive", expected_dropped.len()));
+        }
+    } else {
+        drop(clone);
+    }
     let after_clone: BTreeSet<u32> = ledger.dropped().keys().copied().collect();
     for h in &held {
         let must_live = matches!(h.owner, Owner::Chain(0) | Owner::Helper(0) | Owner::Shared);
@@ -348,12 +373,28 @@ fn run_sequence_inner(steps: &[Step]) -> Result<String, String> {
     let original = insts.pop().unwrap();
     // the instance is finished by an explicit verify() for every other sequence (its verdict is
     // not the subject here: what it lent and what it was configured with is released all the same)
-    let by_verify = steps.iter().map(|s| s.op as usize + s.inst as usize).sum::<usize>() % 2 == 1;
-    if by_verify {
-        let u = original.take();
-        let _ = catch(move || u.verify());
-    } else {
-        drop(original);
+    let dropped_with_clone = ledger.dropped().len();
+    match (way / 3) % 4 {
+        1 => {
+            let u = original.take();
+            let _ = catch(move || u.verify());
+        }
+        #[cfg(feature = "std")]
+        2 => {
+            // finished the way the test harness finishes a `fn test() -> Unimock`
+            let u = original.take();
+            let _ = catch(move || std::process::Termination::report(u));
+        }
+        3 => {
+            let u = original.take();
+            match catch(move || <Unimock as L>::fin(u)) {
+                Ok(seen) if seen as usize != dropped_with_clone => {
+                    return Err(format!("a by-value provided method on the original: its body saw {seen} dropped values, {dropped_with_clone} were gone before the call"));
+                }
+                _ => {}
+            }
+        }
+        _ => drop(original),
     }
     let dropped = ledger.dropped();
     if dropped.len() as u32 != total || dropped.values().any(|n| *n != 1) {
